@@ -1,0 +1,57 @@
+//go:build verif
+
+package tls
+
+import "crypto/x509"
+
+// VerifTicketKeys returns the ticket keys the Config would use now (c.ticketKeys(nil)), made public.
+func VerifTicketKeys(c *Config) []TicketKey { return ticketKeys(c.ticketKeys(nil)).ToPublic() }
+
+// VerifSessionFields carries every field of a SessionState, including the private ones.
+type VerifSessionFields struct {
+	Version, CipherSuite uint16
+	IsClient             bool
+	CreatedAt            uint64
+	Secret               []byte
+	ExtMasterSecret      bool
+	EarlyData            bool
+	Extra                [][]byte
+	PeerCertificates     []*x509.Certificate
+	OCSPResponse         []byte
+	SCTs                 [][]byte
+	VerifiedChains       [][]*x509.Certificate
+	ALPN                 string
+	UseBy                uint64
+	AgeAdd               uint32
+	Ticket               []byte
+}
+
+// VerifMakeSessionState builds a SessionState with the given private fields.
+func VerifMakeSessionState(f VerifSessionFields) *SessionState {
+	return &SessionState{
+		Extra: f.Extra, EarlyData: f.EarlyData,
+		version: f.Version, isClient: f.IsClient, cipherSuite: f.CipherSuite, createdAt: f.CreatedAt,
+		secret: f.Secret, extMasterSecret: f.ExtMasterSecret, peerCertificates: f.PeerCertificates,
+		ocspResponse: f.OCSPResponse, scts: f.SCTs, verifiedChains: f.VerifiedChains, alpnProtocol: f.ALPN,
+		useBy: f.UseBy, ageAdd: f.AgeAdd, ticket: f.Ticket,
+	}
+}
+
+// VerifSessionFieldsOf reads every field of a SessionState.
+func VerifSessionFieldsOf(s *SessionState) VerifSessionFields {
+	return VerifSessionFields{
+		Version: s.version, CipherSuite: s.cipherSuite, IsClient: s.isClient, CreatedAt: s.createdAt,
+		Secret: s.secret, ExtMasterSecret: s.extMasterSecret, EarlyData: s.EarlyData, Extra: s.Extra,
+		PeerCertificates: s.peerCertificates, OCSPResponse: s.ocspResponse, SCTs: s.scts,
+		VerifiedChains: s.verifiedChains, ALPN: s.alpnProtocol, UseBy: s.useBy, AgeAdd: s.ageAdd, Ticket: s.ticket,
+	}
+}
+
+// VerifClientSessionFields reads the SessionState inside a ClientSessionState (nil if unset).
+func VerifClientSessionFields(css *ClientSessionState) *VerifSessionFields {
+	if css == nil || css.session == nil {
+		return nil
+	}
+	f := VerifSessionFieldsOf(css.session)
+	return &f
+}
